@@ -27,8 +27,8 @@ CLAIMED = {
             "task per molecule in molecule order (task i: position pos_i/scale, orientation R_i, loader order, requested "
             "shape; the crop uses the block and matrix prepared for the same molecule; declared array shape == task shape) "
             "and _post_align writes result i to row i next to molecule i's own feature row, without modifying the source.",
-            NOTE + "BatchLoader task order, groups, filter/sort/sample derivations and iter_mapping_tasks pairing are not "
-            "under contract yet (see DESIGN.md: limits)."),
+            NOTE + "iter_mapping_tasks pairing is covered through construct_landscape (task i gets kwargs row i; "
+            "dict_iterrows trusted); BatchLoader task order and loader groups are not under contract (see DESIGN.md: limits)."),
     "C05": ("DESIGN.md section 2 / C05",
             "Deductive, all inputs: for every max_shifts >= 0 (not only the 1/20 grid) the backend alignment kernels "
             "(_create_mesh, upsample, subpixel_zncc/ncc/pcc/fsc, crop_by_max_shifts, ncc_landscape chain) raise no "
@@ -54,6 +54,36 @@ CLAIMED = {
             "arrays of the t-th split over the same task stack, seeded by `seed`.",
             NOTE + "dask stack/rechunk/mean/boolean selection are value-preserving for any chunking (trusted); non-emptiness "
             "of the second half is a pigeonhole argument outside the solver; batch/group averages not yet under contract."),
+    "C10": ("DESIGN.md section 2 / C10",
+            "Deductive for what a per-call contract can decide about schedule independence: (a) the per-model template "
+            "cache is only read by alignment / landscape tasks (frame clause writes_to(cache) == 0; lookup with an equal "
+            "Backend hits); (b) results of functools.lru_cache'd helper grids are never updated in place by their callers "
+            "(frame obligations on every verified caller); (c) declared shapes of lazy arrays equal computed shapes: "
+            "construct_landscape (all four models, any search range / scale / up-sampling factor, single template) and "
+            "construct_loading_tasks; landscape task i gets sub-volume i, position i and orientation i.",
+            NOTE + "Thread interleavings themselves are not explored (no concurrency in this technique): the argument is "
+            "'tasks only read shared state'. dask's scheduler, chunking of the tomogram and the numpy/dask equivalence of "
+            "array operations are trusted library contracts; multi-template landscapes and the global default backend are "
+            "not under contract; fsc_landscape's shape and dict_iterrows are trusted."),
+    "C12": ("DESIGN.md section 2 / C12",
+            "Deductive, any number of molecules: __init__ establishes or rejects (lengths of positions / orientations / "
+            "feature rows agree), subset (int, slice, index array, boolean mask), head, tail, filter, sort, sample, "
+            "concat, concat_with, append (in place, with frame), with_features, drop_features, group_by / cutby and the "
+            "group iterators return molecules whose row j is the complete input row src(j) (position, orientation matrix, "
+            "feature values) for the operation's index map src; to_dataframe / from_dataframe are row-wise inverse.",
+            NOTE + "Trusted polars contract (pyvc/frames.py): filter keeps exactly the true rows in order, sort is a bijective "
+            "row map ordered by the key, sample an injective one, group_by(maintain_order) a partition with non-empty "
+            "groups, diagonal / vertical concat; feature values are reals (dtypes, nulls and strings are not modelled); "
+            "float32 storage treated as exact."),
+    "C13": ("DESIGN.md section 2 / C13",
+            "Deductive: to_file and from_file dispatch on the suffix with the same rule (spec function fmt_of_suffix) for "
+            "suffixes .csv/.pq/.parquet/.txt/none; to_csv / to_parquet / to_file write the complete table (columns z,y,x,"
+            "zvec,yvec,xvec then features; row i = molecule i), CSV with exactly the requested float_precision (default 4); "
+            "from_file of such a file yields molecule i == stored row i exactly (Parquet) or within 0.5e-4 per position "
+            "component (CSV); the data-frame round trip (head(n >= N)) returns every molecule unchanged.",
+            NOTE + "Trusted: polars writers / readers as an inverse pair (Parquet exact, CSV rounded to float_precision); "
+            "float32 storage of the rotation vector and the rotation-vector branch cut near angle pi are treated in exact "
+            "real arithmetic (from_rotvec(as_rotvec(R)) == R assumed); dtypes other than reals not modelled."),
     "C11": ("DESIGN.md section 2 / C11",
             "Deductive, any molecule count and all SO(3) orientations (matrix view): x/y/z are columns 2/1/0 of the rotation "
             "and unit vectors; rotate_by composes on the left and keeps positions; translate / translate_internal add the "
